@@ -35,16 +35,15 @@ theorem CtxRel.pred {a : Arena} {env : Env} {c c' : Ctx} (ha : c.a = a) (ha' : c
 
 def RefE (a : Arena) (env : Env) (e : Expr) : Prop :=
   ∀ (ca : Bool) (c c' : Ctx), CtxRel a env ca c c' → sumSafe ca e = true →
-    prefixesBound env e = true → Res.Equiv (eval Model.sem e c) (eval Spec.semKF e c')
+    Res.Equiv (eval Model.sem e c) (eval Spec.semKF e c')
 
 def RefArgs (a : Arena) (env : Env) (es : Exprs) : Prop :=
   ∀ (ca : Bool) (c c' : Ctx), CtxRel a env ca c c' → sumSafeL ca es = true →
-    prefixesBoundL env es = true →
     ExRel Vals.Equiv (evalArgs Model.sem es c) (evalArgs Spec.semKF es c')
 
 def RefPreds (a : Arena) (env : Env) (es : Exprs) : Prop :=
   ∀ (c c' : Ctx) (l : List Nat), c.a = a → c'.a = a → c.env = env → c'.env = env →
-    (∀ x ∈ l, x < a.size) → sumSafeL true es = true → prefixesBoundL env es = true →
+    (∀ x ∈ l, x < a.size) → sumSafeL true es = true →
     ExRel Eq (applyPreds Model.sem es c l) (applyPreds Spec.semKF es c' l)
 
 /-! ## predicates -/
@@ -63,71 +62,71 @@ theorem filterIdx_congr {t t' : Nat → Nat → Except Err Bool} :
 
 theorem refPred {a : Arena} {env : Env} {p : Expr} (ih : RefE a env p) (c c' : Ctx) (l : List Nat)
     (ha : c.a = a) (ha' : c'.a = a) (he : c.env = env) (he' : c'.env = env)
-    (hl : ∀ x ∈ l, x < a.size) (hs : sumSafe true p = true) (hb : prefixesBound env p = true) :
+    (hl : ∀ x ∈ l, x < a.size) (hs : sumSafe true p = true) :
     ExRel Eq (applyPred Model.sem p c l) (applyPred Spec.semKF p c' l) := by
   rw [applyPred, applyPred]
   apply filterIdx_congr
   intro j n hn
-  refine ExRel.bind (ih true _ _ (CtxRel.pred ha ha' he he' (hl n hn) j l.length) hs hb) ?_
+  refine ExRel.bind (ih true _ _ (CtxRel.pred ha ha' he he' (hl n hn) j l.length) hs) ?_
   intro u v _ _ huv
   exact ExRel.pure_pure (predTruth_congr _ huv)
 
 theorem refPreds_nil {a : Arena} {env : Env} : RefPreds a env .nil := by
-  intro c c' l _ _ _ _ _ _ _
+  intro c c' l _ _ _ _ _ _
   rw [applyPreds, applyPreds]
   exact rfl
 
 theorem refPreds_cons {a : Arena} {env : Env} {p : Expr} {ps : Exprs} (ihp : RefE a env p)
     (ihps : RefPreds a env ps) : RefPreds a env (.cons p ps) := by
-  intro c c' l ha ha' he he' hl hs hb
+  intro c c' l ha ha' he he' hl hs
   rw [applyPreds, applyPreds]
-  simp only [sumSafeL, prefixesBoundL, Bool.and_eq_true] at hs hb
-  refine ExRel.bind (refPred ihp c c' l ha ha' he he' hl hs.1 hb.1) ?_
+  simp only [sumSafeL, Bool.and_eq_true] at hs
+  refine ExRel.bind (refPred ihp c c' l ha ha' he he' hl hs.1) ?_
   rintro kept _ hk _ rfl
   exact ihps c c' kept ha ha' he he'
-    (fun x hx => hl x ((applyPred_sublist _ _ _ _ hk).subset hx)) hs.2 hb.2
+    (fun x hx => hl x ((applyPred_sublist _ _ _ _ hk).subset hx)) hs.2
 
 theorem refArgs_nil {a : Arena} {env : Env} : RefArgs a env .nil := by
-  intro ca c c' _ _ _
+  intro ca c c' _ _
   rw [evalArgs, evalArgs]
   exact Vals.Equiv.nil
 
 theorem refArgs_cons {a : Arena} {env : Env} {e : Expr} {es : Exprs} (ihe : RefE a env e)
     (ihes : RefArgs a env es) : RefArgs a env (.cons e es) := by
-  intro ca c c' hr hs hb
+  intro ca c c' hr hs
   rw [evalArgs, evalArgs]
-  simp only [sumSafeL, prefixesBoundL, Bool.and_eq_true] at hs hb
-  refine ExRel.bind (ihe ca c c' hr hs.1 hb.1) ?_
+  simp only [sumSafeL, Bool.and_eq_true] at hs
+  refine ExRel.bind (ihe ca c c' hr hs.1) ?_
   intro v w _ _ hvw
-  refine ExRel.bind (ihes ca c c' hr hs.2 hb.2) ?_
+  refine ExRel.bind (ihes ca c c' hr hs.2) ?_
   intro vs ws _ _ hvs
   exact ExRel.pure_pure (.cons hvw hvs)
 
 /-! ## expressions -/
 
 theorem refE_num {a : Arena} {env : Env} (n : Num) : RefE a env (.num n) := by
-  intro ca c c' _ _ _
+  intro ca c c' _ _
   rw [eval, eval]
   exact Val.Equiv.refl _
 
 theorem refE_lit {a : Arena} {env : Env} (s : Chars) : RefE a env (.lit s) := by
-  intro ca c c' _ _ _
+  intro ca c c' _ _
   rw [eval, eval]
   exact Val.Equiv.refl _
 
 theorem refE_root {a : Arena} {env : Env} : RefE a env .root := by
-  intro ca c c' _ _ _
+  intro ca c c' _ _
   rw [eval, eval]
   exact Val.Equiv.refl _
 
 theorem refE_ctx {a : Arena} {env : Env} : RefE a env .ctx := by
-  intro ca c c' hr _ _
+  intro ca c c' hr _
   rw [eval, eval]
   exact hr.res
 
 theorem refE_var {a : Arena} {env : Env} (pfx : Option Chars) (name : Chars) :
     RefE a env (.var pfx name) := by
-  intro ca c c' hr _ _
+  intro ca c c' hr _
   rw [eval, eval, hr.he, hr.he']
   exact ExRel.refl Val.Equiv.refl _
 
@@ -138,10 +137,10 @@ variable {a : Arena} (h : wfb a = true)
 
 include h hsv in
 theorem refE_neg {e : Expr} (ih : RefE a env e) : RefE a env (.neg e) := by
-  intro ca c c' hr hs hb
+  intro ca c c' hr hs
   rw [eval, eval]
-  simp only [sumSafe, prefixesBound] at hs hb
-  refine ExRel.bind (ih ca c c' hr hs hb) ?_
+  simp only [sumSafe] at hs
+  refine ExRel.bind (ih ca c c' hr hs) ?_
   intro u v _ _ huv
   refine ExRel.pure_pure ?_
   show Val.Equiv (.num (Num.neg (Model.toNum (Model.strval c.a) u)))
@@ -181,12 +180,12 @@ theorem union_congr {x x' y y' : Val} (hx : Val.Equiv x x') (hy : Val.Equiv y y'
 include h hsv in
 theorem refE_bin (op : BinOp) {l r : Expr} (ihl : RefE a env l) (ihr : RefE a env r) :
     RefE a env (.bin op l r) := by
-  intro ca c c' hr hs hb
+  intro ca c c' hr hs
   rw [eval, eval]
-  simp only [sumSafe, prefixesBound, Bool.and_eq_true] at hs hb
-  refine ExRel.bind (ihl ca c c' hr hs.1 hb.1) ?_
+  simp only [sumSafe, Bool.and_eq_true] at hs
+  refine ExRel.bind (ihl ca c c' hr hs.1) ?_
   intro x x' _ _ hx
-  refine ExRel.bind (ihr ca c c' hr hs.2 hb.2) ?_
+  refine ExRel.bind (ihr ca c c' hr hs.2) ?_
   intro y y' _ _ hy
   have esv : Model.sem.sv c.a = Spec.semKF.sv c'.a := by
     show Model.strval c.a = Spec.strval c'.a
@@ -207,10 +206,10 @@ theorem refE_bin (op : BinOp) {l r : Expr} (ihl : RefE a env l) (ihr : RefE a en
 include h henv in
 theorem refE_filt {base pred : Expr} (ihb : RefE a env base) (ihp : RefE a env pred) :
     RefE a env (.filt base pred) := by
-  intro ca c c' hr hs hb
+  intro ca c c' hr hs
   rw [eval, eval]
-  simp only [sumSafe, prefixesBound, Bool.and_eq_true] at hs hb
-  refine ExRel.bind (ihb ca c c' hr hs.1 hb.1) ?_
+  simp only [sumSafe, Bool.and_eq_true] at hs
+  refine ExRel.bind (ihb ca c c' hr hs.1) ?_
   intro b b' hbv _ hbb
   have ob : Val.Ok a b := eval_ok h base c b hr.ha (hr.he ▸ henv) hr.ok hbv
   refine ExRel.bind (nodes?_congr hbb) ?_
@@ -218,7 +217,7 @@ theorem refE_filt {base pred : Expr} (ihb : RefE a env base) (ihp : RefE a env p
   rw [nodes?_ok] at hl
   subst hl
   rw [cleanupFwd_perm hll]
-  refine ExRel.bind (refPred ihp c c' _ hr.ha hr.ha' hr.he hr.he' ?_ hs.2 hb.2) ?_
+  refine ExRel.bind (refPred ihp c c' _ hr.ha hr.ha' hr.he hr.he' ?_ hs.2) ?_
   · intro x hx
     exact ob.1 x (hll.mem_iff.mpr (mem_cleanupFwd.mp hx))
   · rintro r _ _ _ rfl
@@ -228,18 +227,18 @@ include h henv in
 theorem refE_step {base : Expr} (ax : Axis) (t : NodeTest) {preds : Exprs}
     (ihb : RefE a env base) (ihp : RefPreds a env preds) :
     RefE a env (.step base ax t preds) := by
-  intro ca c c' hr hs hb
+  intro ca c c' hr hs
   rw [eval, eval]
-  simp only [sumSafe, prefixesBound, Bool.and_eq_true] at hs hb
-  refine ExRel.bind (ihb ca c c' hr hs.1 hb.1.1) ?_
+  simp only [sumSafe, Bool.and_eq_true] at hs
+  refine ExRel.bind (ihb ca c c' hr hs.1) ?_
   intro b b' hbv _ hbb
   have ob : Val.Ok a b := eval_ok h base c b hr.ha (hr.he ▸ henv) hr.ok hbv
   refine ExRel.bind (nodes?_congr hbb) ?_
   intro s s' hl _ hss
   rw [nodes?_ok] at hl
   subst hl
-  exact step_refines h hr.ha hr.ha' hr.he hr.he' ax hb.1.2
-    (fun l hl => ihp c c' l hr.ha hr.ha' hr.he hr.he' hl hs.2 hb.2) hss ob
+  exact step_refines h hr.ha hr.ha' hr.he hr.he' ax t
+    (fun l hl => ihp c c' l hr.ha hr.ha' hr.he hr.he' hl hs.2) hss ob
 
 omit h hsv henv in
 theorem resolve_snd {env : Env} {pfx : Option Chars} {name : Chars} {q : QName}
@@ -279,11 +278,11 @@ include h hsv henv in
 theorem refE_call {base : Expr} (pfx : Option Chars) (name : Chars) {args : Exprs}
     (ihb : RefE a env base) (iha : RefArgs a env args) :
     RefE a env (.call base pfx name args) := by
-  intro ca c c' hr hs hb
+  intro ca c c' hr hs
   rw [eval, eval]
-  simp only [sumSafe, prefixesBound, Bool.and_eq_true, Bool.or_eq_true, bne_iff_ne, ne_eq] at hs hb
+  simp only [sumSafe, Bool.and_eq_true, Bool.or_eq_true, bne_iff_ne, ne_eq] at hs
   obtain ⟨⟨⟨hs1, hs2⟩, hs3⟩, hs4⟩ := hs
-  refine ExRel.bind (ihb ca c c' hr hs1 hb.1) ?_
+  refine ExRel.bind (ihb ca c c' hr hs1) ?_
   intro b b' hbv hbv' hbb
   have henvc : EnvOk a c.env := hr.he ▸ henv
   have henvc' : EnvOk a c'.env := hr.he' ▸ henv
@@ -299,7 +298,7 @@ theorem refE_call {base : Expr} (pfx : Option Chars) (name : Chars) {args : Expr
   generalize ({ c with result := b } : Ctx) = c1
   generalize ({ c' with result := b' } : Ctx) = c1'
   intro hr1 hres1 hres1'
-  refine ExRel.bind (iha _ _ _ hr1 hs2 hb.2) ?_
+  refine ExRel.bind (iha _ _ _ hr1 hs2) ?_
   intro vs vs' hvs hvs' hvv
   rw [hr.he, hr.he']
   refine ExRel.bind (ExRel.refl (R := Eq) (fun _ => rfl) _) ?_
@@ -387,60 +386,60 @@ end
 
     `ca` says whether the context node-sets are known to be listed in ascending document order
     (`hasc`); it is `true` for `Model.run`, whose context is a single node.
-    Side conditions on the expression: `sumSafe ca e` (arguments of `sum` and context of `lang`
-    are provably in ascending order) and `prefixesBound env e` (every prefix of a node test is
-    bound: with an unbound prefix and an EMPTY context node-set the model fails and the
-    specification returns the empty node-set). -/
+    Side condition on the expression: `sumSafe ca e` (arguments of `sum` and context of `lang`
+    are provably in ascending order).  Nothing is assumed about namespace prefixes: a node test
+    whose prefix is not bound is resolved before the context nodes are looked at, so both
+    evaluators fail with `unboundPrefix`, also on an EMPTY context node-set. -/
 theorem exec_refines_spec (a : Arena) (h : wfb a = true)
     (hsv : ∀ i, i < a.size → Model.strval a i = Spec.strval a i)
     (env : Env) (henv : EnvOk a env) (e : Expr) (ca : Bool)
-    (hs : sumSafe ca e = true) (hb : prefixesBound env e = true)
+    (hs : sumSafe ca e = true)
     (c c' : Ctx) (hc : Ctx.Equiv c c') (hok : Val.Ok a c.result)
     (hasc : ca = true → Val.Asc c.result ∧ Val.Asc c'.result)
     (ha : c.a = a) (he : c.env = env) :
     Res.Equiv (eval Model.sem e c) (eval Spec.semKF e c') :=
   refE_all h hsv henv e ca c c'
-    ⟨ha, hc.a ▸ ha, he, hc.env ▸ he, hc.pos, hc.size, hc.result, hok, hasc⟩ hs hb
+    ⟨ha, hc.a ▸ ha, he, hc.env ▸ he, hc.pos, hc.size, hc.result, hok, hasc⟩ hs
 
 /-- the same for argument lists -/
 theorem evalArgs_refines_spec (a : Arena) (h : wfb a = true)
     (hsv : ∀ i, i < a.size → Model.strval a i = Spec.strval a i)
     (env : Env) (henv : EnvOk a env) (es : Exprs) (ca : Bool)
-    (hs : sumSafeL ca es = true) (hb : prefixesBoundL env es = true)
+    (hs : sumSafeL ca es = true)
     (c c' : Ctx) (hc : Ctx.Equiv c c') (hok : Val.Ok a c.result)
     (hasc : ca = true → Val.Asc c.result ∧ Val.Asc c'.result)
     (ha : c.a = a) (he : c.env = env) :
     ExRel Vals.Equiv (evalArgs Model.sem es c) (evalArgs Spec.semKF es c') :=
   (refEs_all h hsv henv es).1 ca c c'
-    ⟨ha, hc.a ▸ ha, he, hc.env ▸ he, hc.pos, hc.size, hc.result, hok, hasc⟩ hs hb
+    ⟨ha, hc.a ▸ ha, he, hc.env ▸ he, hc.pos, hc.size, hc.result, hok, hasc⟩ hs
 
 /-- predicates: applied to the same node list, the two evaluators keep the same nodes -/
 theorem applyPreds_refines_spec (a : Arena) (h : wfb a = true)
     (hsv : ∀ i, i < a.size → Model.strval a i = Spec.strval a i)
     (env : Env) (henv : EnvOk a env) (ps : Exprs)
-    (hs : sumSafeL true ps = true) (hb : prefixesBoundL env ps = true)
+    (hs : sumSafeL true ps = true)
     (c c' : Ctx) (ha : c.a = a) (ha' : c'.a = a) (he : c.env = env) (he' : c'.env = env)
     (l : List Nat) (hl : ∀ x ∈ l, x < a.size) :
     ExRel Eq (applyPreds Model.sem ps c l) (applyPreds Spec.semKF ps c' l) :=
-  (refEs_all h hsv henv ps).2 c c' l ha ha' he he' hl hs hb
+  (refEs_all h hsv henv ps).2 c c' l ha ha' he he' hl hs
 
 theorem applyPred_refines_spec (a : Arena) (h : wfb a = true)
     (hsv : ∀ i, i < a.size → Model.strval a i = Spec.strval a i)
     (env : Env) (henv : EnvOk a env) (p : Expr)
-    (hs : sumSafe true p = true) (hb : prefixesBound env p = true)
+    (hs : sumSafe true p = true)
     (c c' : Ctx) (ha : c.a = a) (ha' : c'.a = a) (he : c.env = env) (he' : c'.env = env)
     (l : List Nat) (hl : ∀ x ∈ l, x < a.size) :
     ExRel Eq (applyPred Model.sem p c l) (applyPred Spec.semKF p c' l) :=
-  refPred (refE_all h hsv henv p) c c' l ha ha' he he' hl hs hb
+  refPred (refE_all h hsv henv p) c c' l ha ha' he he' hl hs
 
 /-- `exec.Exec` from a start node: the library's result is the specification's result
     (with the recorded `round` deviation) up to the listing order of a node-set -/
 theorem run_refines_spec (a : Arena) (h : wfb a = true)
     (hsv : ∀ i, i < a.size → Model.strval a i = Spec.strval a i)
     (env : Env) (henv : EnvOk a env) (start : Nat) (hstart : start < a.size) (e : Expr)
-    (hs : sumSafe true e = true) (hb : prefixesBound env e = true) :
+    (hs : sumSafe true e = true) :
     Res.Equiv (Model.run a env start e) (Spec.runKF a env start e) :=
-  exec_refines_spec a h hsv env henv e true hs hb _ _
+  exec_refines_spec a h hsv env henv e true hs _ _
     ⟨rfl, rfl, rfl, rfl, .refl _⟩ (Val.Ok.single hstart)
     (fun _ => ⟨Val.Asc.single start, Val.Asc.single start⟩) rfl rfl
 
